@@ -735,7 +735,30 @@ pub fn known_match<'a>(known: &'a [KnownFinding], prop: &str, v: &Violation, pla
 
 // ------------------------------------------------------------------ check
 
+/// Work directories of processes that no longer exist (children killed on purpose, workers ended by the
+/// watchdog) are removed; directories of live processes (another check running at the same time) are not.
+pub fn sweep_dead_workdirs() {
+    let Some(parent) = workdir_base().parent().map(|p| p.to_path_buf()) else { return };
+    let Ok(rd) = std::fs::read_dir(&parent) else { return };
+    for e in rd.filter_map(|e| e.ok()) {
+        let name = e.file_name().to_string_lossy().to_string();
+        if let Some(pid) = name.strip_prefix("arroy-sim-").and_then(|p| p.parse::<u32>().ok()) {
+            if !Path::new(&format!("/proc/{pid}")).exists() {
+                let _ = std::fs::remove_dir_all(e.path());
+            }
+        }
+    }
+}
+
 pub fn check_main(prop: &str, tier: &str) -> i32 {
+    sweep_dead_workdirs();
+    let rc = check_main_inner(prop, tier);
+    let _ = std::fs::remove_dir_all(workdir_base());
+    sweep_dead_workdirs();
+    rc
+}
+
+fn check_main_inner(prop: &str, tier: &str) -> i32 {
     let t0 = Instant::now();
     if prop == "C13" {
         return crate::engine_c13::check(tier);
